@@ -55,6 +55,8 @@ type Op struct {
 	Reader bool `json:"reader,omitempty"`
 	// NoHandlers: do not install the UnReportedErrors / CompletedCallback options
 	NoHandlers bool `json:"no_handlers,omitempty"`
+	// HandlerPanics: the UnReportedErrors handler the caller installs panics (after noting the error)
+	HandlerPanics bool `json:"handler_panics,omitempty"`
 	// ExecTwice: call Exec a second time on the same *Query after the first returned
 	ExecTwice bool `json:"exec_twice,omitempty"`
 	// VarsBetween: entries the caller writes into its variable map between the two Execs
